@@ -232,6 +232,9 @@ func (w *world) expect(m *mclient, want []string, sig string) *core.Violation {
 // mismatchKind names what is wrong in a way that does not depend on drawn values.
 func mismatchKind(want, got string, all []string, w *world) string {
 	wk, gk := wsx.KindOf(strings.TrimPrefix(want, "!")), wsx.KindOf(strings.TrimPrefix(got, "!"))
+	if gk == "ladd" && wk == "ladd" && strings.HasPrefix(want, "ladd//") && strings.HasPrefix(got, "ladd//") {
+		return "listener-announced-under-another-name-or-status"
+	}
 	if gk == "ladd" {
 		// an Add event of a listener that the model has pruned?
 		name := strings.Split(got, "/")
